@@ -182,9 +182,19 @@ func run(c *hk.Ctx) {
 	for i, s := range scheds {
 		// every second two-handler schedule runs in the resumption variant (reopen with Last-Event-ID)
 		resumeVariant = i%2 == 1
+		broadcastVariant = i%3 == 2
 		runSchedule(c, ctl, s, false)
 	}
-	resumeVariant = false
+	resumeVariant, broadcastVariant = false, false
+	// a send that looked the old stream up before the re-open and reaches it after its handler has left (it finds the
+	// stream closed): whatever it concludes about the session must not outlive the new stream's registration
+	for _, bv := range []bool{false, true} {
+		broadcastVariant = bv
+		m1, m2 := 301, 302
+		runSchedule(c, ctl, []ev{{E: "open", N: &i0}, {E: "store", N: &i0}, {E: "flush", N: &i0}, {E: "sendBegin", M: &m1}, {E: "open", N: &i1}, {E: "store", N: &i1}, {E: "flush", N: &i1},
+			{E: "wake", N: &i0}, {E: "exit", N: &i0}, {E: "sendEnd", M: &m1}, {E: "send", M: &m2}, {E: "send", M: &m}}, true)
+	}
+	broadcastVariant = false
 	runFaultSchedules(c, ctl)
 	for _, s := range en2.Schedules {
 		runSchedule(c, ctl, s, false)
@@ -194,10 +204,27 @@ func run(c *hk.Ctx) {
 	runRaceStress(c)
 	runClientReopen(c)
 	runListRootsAcrossReopen(c)
+	runRequestSlotsAcrossReopen(c)
 	runStalledOldWrite(c)
 }
 
 var runNo int
+
+// broadcastVariant: the sends of a schedule go through BroadcastNotification (the session is the server's only one, so
+// "delivered" = it reports 1 session reached) instead of SendNotification.
+var broadcastVariant bool
+
+func notifySession(srv *mcp.Server, sid, marker string) error {
+	params := map[string]interface{}{"level": "info", "data": marker}
+	if !broadcastVariant {
+		return srv.SendNotification(sid, "notifications/message", params)
+	}
+	n, err := srv.BroadcastNotification("notifications/message", params)
+	if err == nil && n != 1 {
+		return fmt.Errorf("broadcast reached %d sessions", n)
+	}
+	return err
+}
 
 // resumeVariant: every GET after the first carries a Last-Event-ID header (stream resumption path of handleGet).
 var resumeVariant bool
@@ -392,7 +419,7 @@ func runSchedule(c *hk.Ctx, ctl *controller, sched []ev, isWitness bool) {
 						sb.done <- fmt.Sprintf("panic: %v", r)
 					}
 				}()
-				err := f.S.SendNotification(sid, "notifications/message", map[string]interface{}{"level": "info", "data": marker})
+				err := notifySession(f.S, sid, marker)
 				sb.done <- err
 			}()
 			select {
@@ -440,7 +467,7 @@ func runSchedule(c *hk.Ctx, ctl *controller, sched []ev, isWitness bool) {
 			}
 		case "send":
 			marker := fmt.Sprintf("m-%d-%d", runNo, *e.M)
-			err := f.S.SendNotification(sid, "notifications/message", map[string]interface{}{"level": "info", "data": marker})
+			err := notifySession(f.S, sid, marker)
 			if err != nil {
 				o = map[string]any{"failed": true}
 			} else {
@@ -546,6 +573,9 @@ func runSchedule(c *hk.Ctx, ctl *controller, sched []ev, isWitness bool) {
 	}
 	if isWitness {
 		tags = append(tags, "model-witness-schedule")
+	}
+	if broadcastVariant {
+		tags = append(tags, "sends-are-broadcasts")
 	}
 	c.Emit(map[string]any{"c": "streams.run", "evs": sched}, map[string]any{"outs": outs}, reconnectSendAfterHeaders, tags...)
 }
